@@ -199,7 +199,7 @@ def count_obligations(files):
     return n
 
 
-def build_props(pid, timeout=3000):
+def build_props(pid, timeout=3000, extra=()):
     """translate, build Props/<pid>.vo, capture Print Assumptions. Returns dict."""
     info = {"ok": False, "translator_errors": [], "log_tail": "", "assumptions": [], "axioms_outside_allowed": [],
             "obligations": 0, "discharged": 0, "checker_cmd": "", "gate": []}
@@ -210,6 +210,8 @@ def build_props(pid, timeout=3000):
         targets = f"Props/{pid}.vo"
         if os.path.exists(os.path.join(COQ, "Corr", f"Corr{pid}.v")):
             targets += f" Corr/Corr{pid}.vo"
+        for e in extra:
+            targets += " " + e
         cmd = f"timeout {timeout} make -j16 {targets}"
         info["checker_cmd"] = f"cd {COQ} && coq_makefile -f _CoqProject -o Makefile && {cmd} && coqc -R . PUN Props/{pid}.v"
         rc, out, _ = sh(cmd, timeout=timeout + 60, cwd=COQ)
@@ -444,8 +446,8 @@ class Check:
         return rc
 
     # -- standard steps
-    def do_proofs(self):
-        self.proof = build_props(self.pid)
+    def do_proofs(self, extra=()):
+        self.proof = build_props(self.pid, extra=extra)
         return self.proof
 
     def proof_broken_replay(self):
